@@ -220,6 +220,9 @@ class FakeSocket:
     def close(self):
         self.closed = True
 
+    def settimeout(self, t):      # the handler sets a receive timeout on the accepted socket (fix F8)
+        self.timeout = t
+
 
 class System:
     """a real engine + distributed instance (sockets and OS threads replaced, nothing else)."""
@@ -756,7 +759,15 @@ def run(ctx: Ctx) -> Result:
     if g is None:
         res.notes.append('static extraction refused: ' + err)
     variants = VARIANTS
-    events, errors, payloads = collect(ctx, res, variants)
+    try:
+        events, errors, payloads = collect(ctx, res, variants)
+    except LockTimeout as e:
+        res.violations.append(Violation('lock-order-deadlock:single-thread-drive', f"lock never acquired while driving: {e}", {}))
+        return res
+    except Exception as e:  # noqa  the tree cannot even be driven: not a pass
+        res.disagreements.append({'harness-could-not-drive-the-implementation': f"{e.__class__.__name__}: {e}",
+                                  'trace': traceback.format_exc()[-600:]})
+        return res
     for e in errors:
         res.disagreements.append({'harness-operation-failed': e})
 
